@@ -285,6 +285,21 @@ def _selective_invalidation(rep, m, fn, res, memo, key):
                         p_ = getattr(p_, "_parent", None)
                     if over_memo:
                         filters.append((l_.slice.value, res.term(r_), x))
+    # a single entry removed (`memo.pop(key, None)` / `del memo[key]`): a registration can change the verdict of every
+    # (category, unit) pair that shares the registered datum - one key is never all of them
+    singles = []
+    for x in own_nodes(fn.node):
+        if isinstance(x, ast.Call) and isinstance(x.func, ast.Attribute) and x.func.attr == "pop" and x.args and res.term(x.func.value) == ("field", memo):
+            singles.append((x, res.term(x.args[0])))
+        elif isinstance(x, ast.Delete):
+            for t_ in x.targets:
+                if isinstance(t_, ast.Subscript) and res.term(t_.value) == ("field", memo):
+                    singles.append((x, res.term(t_.slice)))
+    if singles and not filters and not any(isinstance(p_, (ast.For, ast.While, ast.ListComp, ast.GeneratorExp)) for x, _ in singles for p_ in _ancestors(x, fn.node)):
+        for x, kt in singles:
+            rep.bad("C15.R3", key + ":selective-invalidation", "%s removes the single memo entry %s: the memo is keyed by (%s), and this registration can change the verdict of every entry that shares the registered %s - the others (a refusal cached for another category of the quantity type, say) stay in effect"
+                    % (fn.name, show_term(kt), ", ".join(layout), "/".join(p for p in layout if p in fn.params) or "datum"), node=x, fn=fn)
+        return
     if not filters:
         raise AnalysisError("%s writes the verdict memo without clear() and without a recognisable selective invalidation" % fn.name)
     for i, xt, node in filters:
@@ -295,6 +310,13 @@ def _selective_invalidation(rep, m, fn, res, memo, key):
                     % (fn.name, i, comp, show_term(xt), "/".join(p for p in layout if p in fn.params) or "own"), node=node, fn=fn)
         else:
             raise AnalysisError("%s invalidates the verdict memo selectively (entries whose %s is the registered one): whether no other cached verdict can change is not decided by this rule" % (fn.name, comp))
+
+
+def _ancestors(x, stop):
+    p_ = getattr(x, "_parent", None)
+    while p_ is not None and p_ is not stop:
+        yield p_
+        p_ = getattr(p_, "_parent", None)
 
 
 def _walk(t):
